@@ -102,6 +102,12 @@ static void extern_products(Ctx &c, int reps, double alpha) {
         }
         { uint64_t h2 = 7; for (int i = 0; i <= c.k; i++) h2 = fnv1a(cin->a[i].coefsT, 4 * N, h2); out.evaluations++;
           if (h2 != hcin) out.viol("extprod:tlwe-input-modified", J().s("config", c.cfg).s("op", "tGswExternProduct").i("products_on_same_input", repeats)); }
+        // the result object is the TLWE operand itself (in-place update c <- A . c through the three-argument entry point)
+        VH_OP("tGswExternProduct(result is the operand):%s", c.cfg.c_str());
+        tLweCopy(r2, cin, c.tl);
+        tGswExternProduct(r2, A, r2, c.tg);
+        ref_tlwe_phase(ph2, r2, c.key->key, N, c.k);
+        check_phase(c, "tGswExternProduct(result==operand)", ph2, want, bound, ctx);
         VH_OP("tGswExternMulToTLwe:%s", c.cfg.c_str());
         tLweCopy(r2, cin, c.tl);
         tGswExternMulToTLwe(r2, A, c.tg);
